@@ -12,7 +12,7 @@
    and the owner of a linking call conforms to the type of the opposite end
    (true for every applicable feature of a well-formed metamodel). *)
 From Coq Require Import ZArith List Bool Arith.
-From PyecoreV Require Import Lib.PyBase Lib.PyList Model.Kernel Proofs.C03Proofs.
+From PyecoreV Require Import Lib.PyBase Lib.PyList Model.Kernel Proofs.C03Proofs Model.EnumEdit Proofs.EnumEditProofs.
 Import ListNotations.
 
 Theorem C03_typed_invariant_step :
@@ -95,3 +95,63 @@ Example C03_witness :
   fst (fst (step ex_mm (init_state ex_mm) (OSet 0 1 (VObj 2)))) = None /\
   fst (fst (step ex_mm (init_state ex_mm) (OSet 0 1 (VObj 0)))) = Some BadValue.
 Proof. vm_compute. repeat split; reflexivity. Qed.
+
+
+(* ---------------- enumerations edited at run time (Model/EnumEdit.v: EEnum.__contains__, eLiterals edits,
+   literals renamed in place) ----------------
+   In the kernel model the literal names of an enumeration are fixed per case; here they change.  Whatever the
+   history of renames / appends / removals / clears: a NAME passes the type check of an EEnum-typed feature iff
+   some literal object the enumeration currently holds currently carries it, a LITERAL OBJECT passes iff the
+   enumeration currently holds it; and the effect of each edit on both is stated exactly. *)
+Theorem C03_enum_conformance_follows_the_current_literals :
+  forall names ops,
+  let e := fold_left enext ops (init_enum names) in
+  distinct e /\
+  (forall n, conf_name e n = true <-> exists l, In (l, n) (lits e)) /\
+  (forall l, conf_lit e l = true <-> In l (ids e)).
+Proof. exact conformance_after_any_history. Qed.
+Print Assumptions C03_enum_conformance_follows_the_current_literals.
+
+Theorem C03_enum_literal_membership_step :
+  forall e o l',
+  conf_lit (enext e o) l' =
+  match o with
+  | ERename _ _ => conf_lit e l'
+  | EAppend l _ => conf_lit e l' || Nat.eqb l l'
+  | ERemove l => conf_lit e l' && negb (Nat.eqb l l')
+  | EClear => false
+  end.
+Proof. exact has_lit_step. Qed.
+Print Assumptions C03_enum_literal_membership_step.
+
+Theorem C03_enum_rename_in_place :
+  forall e l n n',
+  conf_name (enext e (ERename l n)) n' = true <->
+  (exists k, In (k, n') (lits e) /\ k <> l) \/ (n' = n /\ conf_lit e l = true).
+Proof. exact conf_name_rename. Qed.
+Print Assumptions C03_enum_rename_in_place.
+
+Theorem C03_enum_remove :
+  forall e l n', conf_name (enext e (ERemove l)) n' = true <-> exists k, In (k, n') (lits e) /\ k <> l.
+Proof. exact conf_name_remove. Qed.
+Print Assumptions C03_enum_remove.
+
+Theorem C03_enum_append :
+  forall e l n n', conf_lit e l = false ->
+  (conf_name (enext e (EAppend l n)) n' = true <-> conf_name e n' = true \/ n' = n).
+Proof. exact conf_name_append. Qed.
+Print Assumptions C03_enum_append.
+
+Theorem C03_enum_clear_and_failed_remove :
+  forall e, ((forall n, conf_name (enext e EClear) n = false) /\ (forall l, conf_lit (enext e EClear) l = false)) /\
+            (forall l, conf_lit e l = false -> estep e (ERemove l) = (e, false)).
+Proof. intros e. split; [exact (conf_after_clear e) | exact (failed_remove_changes_nothing e)]. Qed.
+Print Assumptions C03_enum_clear_and_failed_remove.
+
+(* deciding from the by-name index kept in the enumeration's __dict__ would be wrong (stale after a rename) *)
+Theorem C03_enum_index_conformance_refuted :
+  exists names ops n,
+    let e := fold_left enext ops (init_enum names) in
+    conf_name_by_index e n = true /\ conf_name e n = false.
+Proof. exact index_conformance_refuted. Qed.
+Print Assumptions C03_enum_index_conformance_refuted.
